@@ -22,8 +22,9 @@ def jobs(tier):
         for n in ([12] if q else list(range(12, 25))):
             add('bs2.n%d' % n, [n, 2, 0], 'every literal body of %d bytes with at most two backslashes' % n, nproc=4)
         # long plain prefix then an unrestricted tail of 13 bytes (covers \\uD8xx\\uDCxx crossing a block edge)
-        for k in (([20] if cfg == 'haswell' else []) if q else list(range(14, 60, 2))):
-            add('pre%d.tail13' % k, [k + 13, k + 14, k], '%d plain symbolic bytes then 13 unrestricted bytes' % k, nproc=16)
+        # long plain prefix then an unrestricted tail (a \\uD8xx\\uDCxx pair needs 12 bytes; 9 covers one \\uXXXX plus neighbours across the block edge)
+        for k in ([] if q else [14, 15, 16, 20, 28, 29, 30, 31, 32, 46, 47, 48, 52]):
+            add('pre%d.tail9' % k, [k + 9, k + 10, k], '%d plain symbolic bytes then 9 unrestricted bytes' % k, nproc=16)
     return J
 
 
